@@ -1,8 +1,826 @@
 import QP.Base
+/-!
+# C16 — model of the Tabor back end `qupulse/_program/tabor.py`
+
+* `Loop`/`play`: source programs with abstract leaf waveform ids and their fully unrolled play order.
+* `Prog` (list of `SeqTab`): the depth-2 balanced form `setup_advanced_sequence_mode` works on after
+  `flatten_and_balance(2)`; `prepareLoop` mirrors the `while` loop of
+  `prepare_program_for_advanced_sequence_mode` (zipper `(doneRev, rest)` for `(program[:i], program[i:])`),
+  `step` is one iteration with the same order of case distinctions, `_check_merge_with_next`,
+  `_check_partial_unroll`, `Loop.unroll_children`, `Loop.split_one_child`.
+* `parse`/`parseSingle`: `parse_aseq_program`/`parse_single_seq_program` (`OrderedDict.setdefault` de-duplication
+  of waveforms and of sequence tables).
+* `playAdv`/`playSeqTab`/`playTables`: the *independent table player* (advanced table → sequence tables →
+  segments with multiplicities), generic in the segment type; it is used under `∀` in the theorems and as
+  the judge of the real implementation's tables.
+* segment packing (`TaborSegment.from_sampled` / `.ch_a/.ch_b/.marker_a/.marker_b`), `code14`
+  (`voltage_to_uint16(..., resolution=14)`) over `Rat` with round-half-even, `calcSegments`
+  (`_calc_sampled_segments`: length check, packing, de-duplication of segments by equality).
+-/
 namespace QP.C16
+
+abbrev WfId := Nat
+
+inductive Err where
+  | tooLong        -- TaborException "not smart enough to make sequence tables shorter"
+  | tooShort       -- TaborException "not smart enough to make this sequence table longer"
+  | assertion      -- an `assert` fired
+  | runtime        -- RuntimeError of `split_one_child` (no child with repetition count > 1)
+  | fuel           -- model ran out of fuel (the Python loop would still be running)
+  | valueError     -- voltage out of range
+  | zeroDivision   -- amplitude 0
+  | segmentLength  -- TaborException: waveform length < 192 or not a multiple of 16
+  | lengthMismatch -- TaborException of `from_sampled`: channel entries of different length
+  | indexError     -- a table refers to an element that does not exist
+  deriving Repr, DecidableEq
+
+def Err.name : Err → String
+  | .tooLong => "too_long" | .tooShort => "too_short" | .assertion => "assertion" | .runtime => "runtime"
+  | .fuel => "fuel" | .valueError => "value_error" | .zeroDivision => "zero_division"
+  | .segmentLength => "segment_length" | .lengthMismatch => "length_mismatch" | .indexError => "index_error"
+
+/-- `n` passes over `xs` -/
+def repeatL {α} (n : Nat) (xs : List α) : List α := (List.replicate n xs).flatten
+
+/-! ## Source programs -/
+
+inductive Loop where
+  | leaf (rep : Nat) (wf : WfId)
+  | node (rep : Nat) (children : List Loop)
+  deriving Repr
+
+mutual
+/-- the fully unrolled sequence of leaf waveforms -/
+def Loop.play : Loop → List WfId
+  | .leaf r w => List.replicate r w
+  | .node r cs => repeatL r (Loop.playList cs)
+def Loop.playList : List Loop → List WfId
+  | [] => []
+  | c :: cs => c.play ++ Loop.playList cs
+end
+
+mutual
+/-- `Node.depth` -/
+def Loop.depth : Loop → Nat
+  | .leaf _ _ => 0
+  | .node _ [] => 0
+  | .node _ (c :: cs) => 1 + Loop.maxDepth (c :: cs)
+def Loop.maxDepth : List Loop → Nat
+  | [] => 0
+  | c :: cs => max c.depth (Loop.maxDepth cs)
+end
+
+def Loop.rep : Loop → Nat
+  | .leaf r _ => r
+  | .node r _ => r
+
+/-- `Loop.encapsulate` -/
+def Loop.encapsulate (l : Loop) : Loop := .node 1 [l]
+
+/-- the head of `TaborProgram.__init__` -/
+def initProgram (l : Loop) : Loop := if l.rep > 1 ∨ l.depth = 0 then l.encapsulate else l
+
+inductive Mode where
+  | single | advanced
+  deriving Repr, DecidableEq
+
+def chooseMode (m : Option Mode) (l : Loop) : Mode :=
+  match m with
+  | some m => m
+  | none => if l.depth > 1 then .advanced else .single
+
+/-! ## Depth-2 balanced programs -/
+
+structure Entry where
+  rep : Nat
+  wf : WfId
+  vol : Option Nat        -- id of the volatile property of the repetition count, if any
+  deriving Repr, DecidableEq
+
+structure SeqTab where
+  rep : Nat
+  vol : Option Nat
+  entries : List Entry
+  deriving Repr, DecidableEq
+
+abbrev Prog := List SeqTab
+
+def Entry.play (e : Entry) : List WfId := List.replicate e.rep e.wf
+def playEntries (es : List Entry) : List WfId := es.flatMap Entry.play
+def SeqTab.play (t : SeqTab) : List WfId := repeatL t.rep (playEntries t.entries)
+def playProg (p : Prog) : List WfId := p.flatMap SeqTab.play
+
+def Entry.toLoop (e : Entry) : Loop := .leaf e.rep e.wf
+def SeqTab.toLoop (t : SeqTab) : Loop := .node t.rep (t.entries.map Entry.toLoop)
+/-- a depth-2 balanced program as a `Loop` (root repetition count 1) -/
+def Prog.toLoop (p : Prog) : Loop := .node 1 (p.map SeqTab.toLoop)
+
+structure Limits where
+  min : Nat
+  max : Nat
+  deriving Repr
+
+def entrySum (es : List Entry) : Nat := (es.map (·.rep)).sum
+
+/-! ### `_check_merge_with_next` -/
+
+def mergeOk (L : Limits) (a b : SeqTab) : Bool :=
+  a.rep == 1 && b.rep == 1 && decide (a.entries.length + b.entries.length < L.max)
+
+/-- `program[n][len(program[n]):] = program[n+1][:]`: the first table keeps its own repetition definition -/
+def mergeTabs (a b : SeqTab) : SeqTab := { a with entries := a.entries ++ b.entries }
+
+/-! ### `Loop.unroll_children`, `Loop.split_one_child` -/
+
+def unrollChildren (t : SeqTab) : SeqTab := ⟨1, none, repeatL t.rep t.entries⟩
+
+/-- split the *last* entry satisfying `p`: its count is lowered by one and a copy with count 1 follows it -/
+def splitLast (p : Entry → Bool) : List Entry → Option (List Entry)
+  | [] => none
+  | e :: es =>
+    match splitLast p es with
+    | some es' => some (e :: es')
+    | none =>
+      if p e then some ({ e with rep := e.rep - 1, vol := none } :: { e with rep := 1, vol := none } :: es)
+      else none
+
+/-- `split_one_child()` without index: the last non-volatile child with count > 1, otherwise the last
+volatile one, otherwise `RuntimeError` -/
+def splitOneChild (es : List Entry) : Except Err (List Entry) :=
+  match splitLast (fun e => decide (e.rep > 1) && e.vol.isNone) es with
+  | some es' => .ok es'
+  | none =>
+    match splitLast (fun e => decide (e.rep > 1)) es with
+    | some es' => .ok es'
+    | none => .error .runtime
+
+/-- `while len(st) < min_seq_len: st.split_one_child()` -/
+def splitWhile (min : Nat) : Nat → List Entry → Except Err (List Entry)
+  | 0, es => if min ≤ es.length then .ok es else .error .fuel
+  | f + 1, es =>
+    if min ≤ es.length then .ok es else
+    match splitOneChild es with
+    | .error e => .error e
+    | .ok es' => splitWhile min f es'
+
+/-- `_check_partial_unroll`: `none` = returned `False` (nothing changed) -/
+def partialUnroll (L : Limits) (t : SeqTab) : Except Err (Option SeqTab) :=
+  if t.vol.isSome then .ok none else
+  if L.min ≤ entrySum t.entries * t.rep then
+    let t1 := if entrySum t.entries < L.min then unrollChildren t else t
+    match splitWhile L.min L.min t1.entries with
+    | .error e => .error e
+    | .ok es => .ok (some { t1 with entries := es })
+  else .ok none
+
+/-! ### one iteration of `prepare_program_for_advanced_sequence_mode` -/
+
+def mergePrev (L : Limits) : List SeqTab → SeqTab → Option (List SeqTab)
+  | p :: d, c => if mergeOk L p c then some (mergeTabs p c :: d) else none
+  | [], _ => none
+
+def mergeNext (L : Limits) (c : SeqTab) : List SeqTab → Option (List SeqTab)
+  | nx :: r => if mergeOk L c nx then some (mergeTabs c nx :: r) else none
+  | [] => none
+
+/-- "extend by unrolling a neighbour" with the previous table -/
+def unrollPrev (L : Limits) : List SeqTab → SeqTab → Option (List SeqTab × SeqTab)
+  | p :: d, c =>
+    if p.rep > 1 ∧ c.entries.length + p.entries.length < L.max then
+      some ({ p with rep := p.rep - 1, vol := none } :: d, { c with entries := p.entries ++ c.entries })
+    else none
+  | [], _ => none
+
+/-- … with the next table (the `volatile_repetition - 1` statement of the code is dead: the count
+setter has already replaced the definition by an `int`) -/
+def unrollNext (L : Limits) (c : SeqTab) : List SeqTab → Option (List SeqTab)
+  | nx :: r =>
+    if nx.rep > 1 ∧ c.entries.length + nx.entries.length < L.max then
+      some ({ c with entries := c.entries ++ nx.entries } :: { nx with rep := nx.rep - 1, vol := none } :: r)
+    else none
+  | [] => none
+
+/-- One pass through the `while` body with `program[:i] = d.reverse`, `program[i] = c`,
+`program[i+1:] = r`. The result is the new `(program[:i'] reversed, program[i':])`. -/
+def step (L : Limits) (d : List SeqTab) (c : SeqTab) (r : List SeqTab) :
+    Except Err (List SeqTab × List SeqTab) :=
+  if L.max < c.entries.length then .error .tooLong
+  else if c.entries.length < L.min then
+    if c.rep = 0 then .error .assertion
+    else if c.rep = 1 then
+      match mergePrev L d c with
+      | some d' => .ok (d', r)
+      | none =>
+      match mergeNext L c r with
+      | some r' => .ok (d, r')
+      | none =>
+      match partialUnroll L c with
+      | .error e => .error e
+      | .ok (some c') => .ok (c' :: d, r)
+      | .ok none =>
+      match unrollPrev L d c with
+      | some (d', c') => .ok (d', c' :: r)
+      | none =>
+      match unrollNext L c r with
+      | some r' => .ok (d, r')
+      | none => .error .tooShort
+    else
+      match partialUnroll L c with
+      | .error e => .error e
+      | .ok (some c') => .ok (c' :: d, r)
+      | .ok none => .error .tooShort
+  else .ok (c :: d, r)
+
+/-- The `while i < len(program)` loop. An error carries the program object as it is at the moment the
+exception is raised (earlier iterations have already modified it in place). -/
+def prepareLoop (L : Limits) : Nat → List SeqTab → List SeqTab → Except (Err × Prog) Prog
+  | _, d, [] => .ok d.reverse
+  | 0, d, c :: r => .error (.fuel, d.reverse ++ c :: r)
+  | n + 1, d, c :: r =>
+    match step L d c r with
+    | .error e => .error (e, d.reverse ++ c :: r)
+    | .ok (d', r') => prepareLoop L n d' r'
+
+/-- `prepare_program_for_advanced_sequence_mode(program, min_seq_len, max_seq_len)` -/
+def prepare (fuel : Nat) (L : Limits) (p : Prog) : Except (Err × Prog) Prog := prepareLoop L fuel [] p
+
+/-- the measure that drops in every iteration: sum of the table repetition counts + tables still ahead -/
+def progWeight (p : Prog) : Nat := (p.map (·.rep)).sum
+def fuelFor (p : Prog) : Nat := progWeight p + p.length + 1
+
+def tabInLimits (L : Limits) (t : SeqTab) : Bool :=
+  decide (L.min ≤ t.entries.length) && decide (t.entries.length ≤ L.max)
+
+/-- `setup_advanced_sequence_mode` after `flatten_and_balance(2)`: prepare, then the two `assert`s per table -/
+def setupAdvanced (fuel : Nat) (L : Limits) (p : Prog) : Except (Err × Prog) Prog :=
+  match prepare fuel L p with
+  | .error e => .error e
+  | .ok p' => if p'.all (tabInLimits L) then .ok p' else .error (.assertion, p')
+
+/-! ## Tables and the table player -/
+
+structure TEntry where
+  rep : Nat
+  elem : Nat
+  jump : Nat
+  deriving Repr, DecidableEq
+
+/-- one sequence table: entry `(rep, elem, _)` plays element `elem` (0-based) `rep` times -/
+def playSeqTab {σ} (segs : List σ) : List TEntry → Option (List σ)
+  | [] => some []
+  | e :: es =>
+    match segs[e.elem]?, playSeqTab segs es with
+    | some s, some r => some (List.replicate e.rep s ++ r)
+    | _, _ => none
+
+/-- the advanced sequencer table: entry `(rep, no, _)` plays sequence table number `no` (1-based) `rep` times -/
+def playAdv {σ} (segs : List σ) (tabs : List (List TEntry)) : List TEntry → Option (List σ)
+  | [] => some []
+  | a :: as =>
+    match a.elem with
+    | 0 => none
+    | k + 1 =>
+      match tabs[k]? with
+      | none => none
+      | some tab =>
+        match playSeqTab segs tab, playAdv segs tabs as with
+        | some s, some r => some (repeatL a.rep s ++ r)
+        | _, _ => none
+
+abbrev VTab := List (TEntry × Option Nat)     -- a sequencer table with the volatile property of each entry
+
+structure Tables where
+  wfs : List WfId          -- the distinct waveforms; sequence-table elements index into it
+  seqTabs : List VTab
+  adv : List TEntry
+  deriving Repr, DecidableEq
+
+def Tables.plain (T : Tables) : List (List TEntry) := T.seqTabs.map (·.map Prod.fst)
+
+def playTables (T : Tables) : Option (List WfId) := playAdv T.wfs T.plain T.adv
+
+/-- `d.setdefault(x, len(d))` on an `OrderedDict` whose values are the insertion positions -/
+def setDefault {α} [DecidableEq α] (keys : List α) (x : α) : List α × Nat :=
+  (if keys.idxOf x < keys.length then keys else keys ++ [x], keys.idxOf x)
+
+def parseEntries (wfs : List WfId) : List Entry → List WfId × VTab
+  | [] => (wfs, [])
+  | e :: es =>
+    let r := parseEntries (setDefault wfs e.wf).1 es
+    (r.1, (⟨e.rep, (setDefault wfs e.wf).2, 0⟩, e.vol) :: r.2)
+
+def parseTabs (wfs : List WfId) (tabs : List VTab) : Prog → Tables
+  | [] => ⟨wfs, tabs, []⟩
+  | t :: ts =>
+    let pe := parseEntries wfs t.entries
+    let sd := setDefault tabs pe.2
+    let r := parseTabs pe.1 sd.1 ts
+    { r with adv := ⟨t.rep, sd.2 + 1, 0⟩ :: r.adv }
+
+/-- `parse_aseq_program` -/
+def parse (p : Prog) : Tables := parseTabs [] [] p
+
+/-- `parse_single_seq_program` for a depth-1 program `rep × entries` -/
+def parseSingle (rep : Nat) (es : List Entry) : Tables :=
+  let pe := parseEntries [] es
+  ⟨pe.1, [pe.2], [⟨rep, 1, 0⟩]⟩
+
+/-! ## Sample codes and segment packing -/
+
+/-- round half to even (`numpy.rint`) -/
+def rne (x : Rat) : Int :=
+  let f := x.floor
+  let d := x - f
+  if d < (1:Rat)/2 then f else if (1:Rat)/2 < d then f + 1 else if f % 2 = 0 then f else f + 1
+
+def absR (x : Rat) : Rat := if x < 0 then -x else x
+
+/-- `voltage_to_uint16(v, amp, off, resolution=14)` for one sample -/
+def code14 (amp off v : Rat) : Except Err Nat :=
+  if amp < absR (v - off) then .error .valueError
+  else if amp = 0 then .error .zeroDivision
+  else .ok (rne ((v - off + amp) * 16383 / (2 * amp))).toNat
+
+def codes (amp off : Rat) : List Rat → Except Err (List Nat)
+  | [] => .ok []
+  | v :: vs =>
+    match code14 amp off v, codes amp off vs with
+    | .ok c, .ok cs => .ok (c :: cs)
+    | .error e, _ => .error e
+    | _, .error e => .error e
+
+/-- what one segment means: codes of both channels and both markers (markers at half rate) -/
+structure Seg where
+  a : List Nat
+  b : List Nat
+  mA : List Bool
+  mB : List Bool
+  deriving Repr, DecidableEq, Inhabited
+
+def packWord (a : Nat) (mA mB : Bool) : Nat :=
+  a ||| ((if mA then 1 else 0) <<< 14) ||| ((if mB then 1 else 0) <<< 15)
+
+def wordChan (w : Nat) : Nat := w &&& (2 ^ 14 - 1)
+def wordMA (w : Nat) : Bool := w &&& 2 ^ 14 != 0
+def wordMB (w : Nat) : Bool := w &&& 2 ^ 15 != 0
+
+def packHalf : List Nat → List Bool → List Bool → List Nat
+  | a :: as, m :: ms, n :: ns => packWord a m n :: packHalf as ms ns
+  | _, _, _ => []
+
+/-- native layout `(n_quanta, 2, 16)` flattened: per quantum 16 words of channel B, then 16 words of channel A
+whose last 8 carry the 8 marker samples of the quantum in bits 14 (marker A) and 15 (marker B) -/
+def packN : Nat → Seg → List Nat
+  | 0, _ => []
+  | n + 1, s =>
+    s.b.take 16 ++ (s.a.take 8 ++ packHalf ((s.a.drop 8).take 8) (s.mA.take 8) (s.mB.take 8))
+      ++ packN n ⟨s.a.drop 16, s.b.drop 16, s.mA.drop 8, s.mB.drop 8⟩
+
+def unpackN : Nat → List Nat → Seg
+  | 0, _ => ⟨[], [], [], []⟩
+  | n + 1, raw =>
+    let b := raw.take 16
+    let aw := (raw.drop 16).take 16
+    let r := unpackN n (raw.drop 32)
+    ⟨aw.map wordChan ++ r.a, b ++ r.b, (aw.drop 8).map wordMA ++ r.mA, (aw.drop 8).map wordMB ++ r.mB⟩
+
+/-- a segment with `16·n` samples per channel and `8·n` per marker -/
+def Seg.WF (s : Seg) (n : Nat) : Prop :=
+  s.a.length = 16 * n ∧ s.b.length = 16 * n ∧ s.mA.length = 8 * n ∧ s.mB.length = 8 * n
+
+def Seg.wfB (s : Seg) : Bool :=
+  s.a.length % 16 == 0 && s.b.length == s.a.length && s.mA.length * 2 == s.a.length && s.mB.length * 2 == s.a.length
+
+/-- `TaborSegment.from_sampled(...).get_as_binary()` -/
+def pack (s : Seg) : Except Err (List Nat) :=
+  if s.b.length = s.a.length ∧ s.mA.length * 2 = s.a.length ∧ s.mB.length * 2 = s.a.length then
+    if s.a.length % 16 = 0 then .ok (packN (s.a.length / 16) s) else .error .assertion
+  else .error .lengthMismatch
+
+/-- reading a binary segment back: `ch_a`, `ch_b`, `marker_a`, `marker_b` -/
+def unpack (raw : List Nat) : Option Seg :=
+  if raw.length % 32 = 0 then some (unpackN (raw.length / 32) raw) else none
+
+/-- device limits on one segment -/
+def segLenOk (n : Nat) : Bool := n % 16 == 0 && decide (192 ≤ n)
+
+/-- `_calc_sampled_segments` after sampling: `segs` are the sampled/quantised waveforms in table order -/
+def dedupSegs : List (List Nat) → List (List Nat) → List (List Nat) × List Nat
+  | keys, [] => (keys, [])
+  | keys, x :: xs =>
+    let sd := setDefault keys x
+    let r := dedupSegs sd.1 xs
+    (r.1, sd.2 :: r.2)
+
+def packAll : List Seg → Except Err (List (List Nat))
+  | [] => .ok []
+  | s :: r =>
+    match pack s, packAll r with
+    | .ok x, .ok xs => .ok (x :: xs)
+    | .error e, _ => .error e
+    | _, .error e => .error e
+
+def calcSegments (ss : List Seg) : Except Err (List (List Nat) × List Nat) :=
+  if ss.all (fun s => segLenOk s.a.length) then
+    match packAll ss with
+    | .error e => .error e
+    | .ok raws => .ok (dedupSegs [] raws)
+  else .error .segmentLength
+
+/-- `get_sequencer_tables`: elements are mapped through `waveform_to_segment` -/
+def reindexTab (w2s : List Nat) : List TEntry → Option (List TEntry)
+  | [] => some []
+  | e :: es =>
+    match w2s[e.elem]?, reindexTab w2s es with
+    | some s, some r => some ({ e with elem := s } :: r)
+    | _, _ => none
+
+def reindexTabs (w2s : List Nat) : List (List TEntry) → Option (List (List TEntry))
+  | [] => some []
+  | t :: ts =>
+    match reindexTab w2s t, reindexTabs w2s ts with
+    | some t', some r => some (t' :: r)
+    | _, _ => none
+
+/-- what is handed to the instrument -/
+structure Compiled where
+  segs : List (List Nat)          -- binary segments (`get_sampled_segments`)
+  seqTabs : List (List TEntry)    -- `get_sequencer_tables`: elements are 0-based segment indices
+  adv : List TEntry               -- `get_advanced_sequencer_table`: elements are 1-based table numbers
+  deriving Repr, DecidableEq
+
+/-- `_calc_sampled_segments` + `get_sequencer_tables` on parsed tables; `sample w` is the sampled and
+quantised waveform `w` -/
+def finish (sample : WfId → Seg) (T : Tables) : Except Err Compiled :=
+  match calcSegments (T.wfs.map sample) with
+  | .error e => .error e
+  | .ok (segs, w2s) =>
+    match reindexTabs w2s T.plain with
+    | none => .error .indexError
+    | some tabs => .ok ⟨segs, tabs, T.adv⟩
+
+/-- advanced sequencing mode from the flattened program on -/
+def compileAdvanced (fuel : Nat) (L : Limits) (sample : WfId → Seg) (p : Prog) : Except Err Compiled :=
+  match setupAdvanced fuel L p with
+  | .error (e, _) => .error e
+  | .ok p' => finish sample (parse p')
+
+/-- `setup_single_sequence_mode` (with the repair PF-C16a: a table longer than `max_seq_len` is rejected;
+the lower bound is not checked here, the driver pads a short single table with idle entries when arming) -/
+def setupSingle (L : Limits) (rep : Nat) (es : List Entry) : Except Err Tables :=
+  if L.max < es.length then .error .tooLong else .ok (parseSingle rep es)
+
+/-- single sequencing mode for a depth-1 program -/
+def compileSingle (L : Limits) (sample : WfId → Seg) (rep : Nat) (es : List Entry) : Except Err Compiled :=
+  match setupSingle L rep es with
+  | .error e => .error e
+  | .ok T => finish sample T
+
+/-- the binary form of a segment -/
+def rawOf (s : Seg) : List Nat := packN (s.a.length / 16) s
+
+/-! ## The judge: replay the implementation's tables and segments against the quantised source -/
+
+/-- acceptable codes for an exact scaled value `y`: the round-half-even code; either neighbour when `y` is
+within `2^-26` code units (2^-40 of full scale) of a half-integer (the implementation computes in floats) -/
+def codeAccept (y : Rat) (c : Nat) : Bool :=
+  let r := (rne y).toNat
+  if c == r then true else
+  let h : Rat := (y.floor : Rat) + (1:Rat)/2
+  let dist := if y < h then h - y else y - h
+  decide (dist * ((2 ^ 26 : Nat) : Rat) ≤ 1) && (decide ((c : Int) = y.floor) || decide ((c : Int) = y.floor + 1))
+
+def scaled (amp off v : Rat) : Rat := (v - off + amp) * 16383 / (2 * amp)
+
+/-- interval `[lo, hi]` of acceptable codes for one expected sample (`lo > hi`: nothing is acceptable) -/
+abbrev Accept := Nat × Nat
+
+/-- relative width of the band above the range end in which the float range check of the implementation
+(`abs(v - off) > amp` after one rounding) may go either way -/
+def bandEps : Rat := 1 / ((2 ^ 40 : Nat) : Rat)
+
+def inBand (amp off v : Rat) : Bool :=
+  decide (amp < absR (v - off)) && decide (absR (v - off) ≤ amp * (1 + bandEps))
+
+def acceptVolt (amp off v : Rat) : Accept :=
+  if amp * (1 + bandEps) < absR (v - off) ∨ amp = 0 then (1, 0)   -- out of range: the implementation has to reject
+  else
+    let y := scaled amp off v
+    let r := (rne y).toNat
+    let h : Rat := (y.floor : Rat) + (1:Rat)/2
+    let dist := if y < h then h - y else y - h
+    if dist * ((2 ^ 26 : Nat) : Rat) ≤ 1 then (y.floor.toNat, (y.floor + 1).toNat) else (r, r)
+
+/-- expected samples of one distinct source waveform -/
+structure SrcWf where
+  id : Nat
+  n : Nat
+  a : Array Accept
+  b : Array Accept
+  mA : Array Bool
+  mB : Array Bool
+  band : Bool            -- some voltage lies within `bandEps` above the range end
+  deriving Inhabited
+
+def chanBand (amp off : Rat) : Option (List (Rat × Nat)) → Bool
+  | none => false
+  | some vs => vs.any (fun r => inBand amp off r.1)
+
+def srcChan (amp off : Rat) (n : Nat) : Option (List (Rat × Nat)) → Array Accept
+  | none => Array.replicate n (8192, 8192)         -- channel id `None`: the zero code
+  | some runs => runs.foldl (fun acc r => acc ++ Array.replicate r.2 (acceptVolt amp off r.1)) #[]
+
+/-- marker samples of a source waveform at the *full* rate; the judge keeps every second sample of the
+whole program (the half-rate grid is global, not per waveform) -/
+def srcMarker (n : Nat) : Option (List Bool) → Array Bool
+  | none => Array.replicate n false
+  | some ms => ms.toArray
+
+def decimate (xs : Array Bool) : Array Bool := Id.run do
+  let mut out : Array Bool := Array.mkEmpty ((xs.size + 1) / 2)
+  for i in [0:xs.size:2] do
+    out := out.push xs[i]!
+  return out
+
+/-- first position where the device stream leaves the acceptable codes -/
+def firstBadCode (exp : Array Accept) (dev : Array Nat) : Option Nat := Id.run do
+  if exp.size != dev.size then return some (min exp.size dev.size)
+  for i in [0:dev.size] do
+    let e := exp[i]!
+    let c := dev[i]!
+    if c < e.1 || e.2 < c then return some i
+  return none
+
+def firstBadBool (exp dev : Array Bool) : Option Nat := Id.run do
+  if exp.size != dev.size then return some (min exp.size dev.size)
+  for i in [0:dev.size] do
+    if exp[i]! != dev[i]! then return some i
+  return none
+
+def concatMap {α β} (xs : List α) (f : α → Array β) : Array β :=
+  xs.foldl (fun acc x => acc ++ f x) #[]
+
+/-! ## Line protocol -/
 open Sexp
 
+def vol? : Sexp → Option (Option Nat)
+  | .atom "-" => some none
+  | s => (nat? s).map some
+
+partial def loop? : Sexp → Option Loop
+  | .list [.atom "w", r, i] => do pure (.leaf (← nat? r) (← nat? i))
+  | .list (.atom "l" :: r :: cs) => do pure (.node (← nat? r) (← cs.mapM loop?))
+  | _ => none
+
+def entry? : Sexp → Option Entry
+  | .list [.atom "e", r, w, v] => do pure ⟨← nat? r, ← nat? w, ← vol? v⟩
+  | _ => none
+
+def seqTab? : Sexp → Option SeqTab
+  | .list (.atom "st" :: r :: v :: es) => do pure ⟨← nat? r, ← vol? v, ← es.mapM entry?⟩
+  | _ => none
+
+inductive Staged where
+  | none
+  | flat1 (rep : Nat) (es : List Entry)
+  | flat2 (p : Prog)
+
+def staged? : Sexp → Option Staged
+  | .atom "none" => some .none
+  | .list (.atom "flat1" :: r :: es) => do pure (.flat1 (← nat? r) (← es.mapM entry?))
+  | .list (.atom "flat2" :: ts) => do pure (.flat2 (← ts.mapM seqTab?))
+  | _ => none
+
+def mode? : Sexp → Option (Option Mode)
+  | .atom "single" => some (some .single)
+  | .atom "advanced" => some (some .advanced)
+  | .atom "auto" => some none
+  | _ => none
+
+def limits? : Sexp → Option Limits
+  | .list [.atom "limits", a, b] => do pure ⟨← nat? a, ← nat? b⟩
+  | _ => none
+
+def volS : Option Nat → Sexp
+  | none => .atom "-"
+  | some v => ofNat v
+
+def errS (e : Err) : Sexp := .list [.atom "error", .atom e.name]
+
+def tablesS (m : Mode) (T : Tables) (stagedOk : Bool) : Sexp :=
+  .list [.atom "ok", .atom (match m with | .single => "single" | .advanced => "advanced"),
+    .list (.atom "wfs" :: T.wfs.map ofNat),
+    .list (.atom "seqtabs" :: T.seqTabs.map (fun tab =>
+      .list (tab.map (fun (e, v) => .list [ofNat e.rep, ofNat e.elem, volS v])))),
+    .list (.atom "adv" :: T.adv.map (fun a => .list [ofNat a.rep, ofNat a.elem])),
+    .list [.atom "staged-plays-source", ofBool stagedOk]]
+
+/-- the model of `TaborProgram.__init__` up to the tables; the flattened program is supplied (`staged`),
+`flatten_and_balance` itself belongs to C06 -/
+def modelCompile (m : Option Mode) (L : Limits) (src : Loop) (st : Staged) : Sexp :=
+  let l0 := initProgram src
+  match chooseMode m l0 with
+  | .single =>
+    if l0.depth ≠ 1 then errS .assertion else
+    match st with
+    | .flat1 rep es =>
+      match setupSingle L rep es with
+      | .error e => errS e
+      | .ok T => tablesS .single T (repeatL rep (playEntries es) == src.play)
+    | _ => Sexp.err "staged-program-missing"
+  | .advanced =>
+    if ¬ (l0.depth > 1) ∨ l0.rep ≠ 1 then errS .assertion else
+    match st with
+    | .flat2 p =>
+      match setupAdvanced (fuelFor p) L p with
+      | .error (e, _) => errS e
+      | .ok p' => tablesS .advanced (parse p') (playProg p == src.play)
+    | _ => Sexp.err "staged-program-missing"
+
+/-- run-length atoms: `m` or `m*k` (k copies of m) -/
+def runAtom? : Sexp → Option (Int × Nat)
+  | .atom s =>
+    match s.splitOn "*" with
+    | [m] => do pure (← m.toInt?, 1)
+    | [m, k] => do pure (← m.toInt?, ← k.toNat?)
+    | _ => none
+  | _ => none
+
+/-- dyadic sample list `(d E m1 m2*k …)`: values `m · 2^E`, as runs -/
+def dyadicRuns? : Sexp → Option (List (Rat × Nat))
+  | .list (.atom "d" :: e :: ms) => do
+    let e ← int? e
+    let ms ← ms.mapM runAtom?
+    let scale : Rat := if e ≥ 0 then ((2 : Rat) ^ e.toNat) else 1 / ((2 : Rat) ^ (-e).toNat)
+    pure (ms.map (fun (m : Int × Nat) => ((m.1 : Rat) * scale, m.2)))
+  | _ => none
+
+def expandRuns {α} (rs : List (α × Nat)) : List α := rs.flatMap (fun r => List.replicate r.2 r.1)
+
+def dyadic? (s : Sexp) : Option (List Rat) := (dyadicRuns? s).map expandRuns
+
+def optDyadicRuns? : Sexp → Option (Option (List (Rat × Nat)))
+  | .atom "none" => some none
+  | s => (dyadicRuns? s).map some
+
+/-- raw words `(w1 w2*k …)` -/
+def natRuns? : Sexp → Option (List Nat)
+  | .list xs => do
+    let rs ← xs.mapM runAtom?
+    pure (expandRuns (rs.map (fun r => (r.1.toNat, r.2))))
+  | _ => none
+
+/-- marker samples travel as one atom `b0110…` -/
+def bits? : Sexp → Option (List Bool)
+  | .atom s => if s.startsWith "b" then some ((s.drop 1).toString.toList.map (· == '1')) else none
+  | _ => none
+
+def optBits? : Sexp → Option (Option (List Bool))
+  | .atom "none" => some none
+  | s => (bits? s).map some
+
+def bitsS (bs : List Bool) : Sexp := .atom ("b" ++ String.ofList (bs.map (fun b => if b then '1' else '0')))
+
+def tentry3? : Sexp → Option TEntry
+  | .list [r, e, j] => do pure ⟨← nat? r, ← nat? e, ← nat? j⟩
+  | _ => none
+
+structure Cfg where
+  amp0 : Rat
+  off0 : Rat
+  amp1 : Rat
+  off1 : Rat
+
+def cfg? : Sexp → Option Cfg
+  | .list [.atom "cfg", a0, o0, a1, o1] => do pure ⟨← rat? a0, ← rat? o0, ← rat? a1, ← rat? o1⟩
+  | _ => none
+
+def srcWf? (c : Cfg) : Sexp → Option SrcWf
+  | .list [.atom "wf", i, n, a, b, ma, mb] => do
+    let n ← nat? n
+    let a ← optDyadicRuns? a
+    let b ← optDyadicRuns? b
+    pure ⟨← nat? i, n, srcChan c.amp0 c.off0 n a, srcChan c.amp1 c.off1 n b,
+      srcMarker n (← optBits? ma), srcMarker n (← optBits? mb), chanBand c.amp0 c.off0 a || chanBand c.amp1 c.off1 b⟩
+  | _ => none
+
+def viol (clause : String) (args : List Sexp) : Sexp := .list (.atom "violates" :: .atom clause :: args)
+
+/-- The judge. The implementation's binary segments and tables are replayed with `playAdv` and compared
+sample for sample with the source program's play order of expected codes / markers; all emitted tables and
+segments must respect the device limits. -/
+def judge (m : Mode) (L : Limits) (src : Loop) (wfs : List SrcWf) (raws : List (List Nat))
+    (tabs : List (List TEntry)) (adv : List TEntry) : Sexp := Id.run do
+  -- 1. segments: size, device limits
+  let mut segs : Array Seg := #[]
+  let mut k := 0
+  for raw in raws do
+    match unpack raw with
+    | none => return viol "segment-not-whole-quanta" [ofNat k, ofNat raw.length]
+    | some s =>
+      if !segLenOk s.a.length then return viol "segment-length" [ofNat k, ofNat s.a.length]
+      segs := segs.push s
+    k := k + 1
+  -- 2. sequence table lengths
+  k := 0
+  for tab in tabs do
+    match m with
+    | .advanced =>
+      if tab.length < L.min ∨ L.max < tab.length then
+        return viol "table-length" [ofNat k, ofNat tab.length, ofNat L.min, ofNat L.max]
+    | .single =>
+      if L.max < tab.length then
+        return viol "single-table-too-long" [ofNat k, ofNat tab.length, ofNat L.max]
+    k := k + 1
+  if m == .single ∧ (tabs.length ≠ 1 ∨ adv.length ≠ 1) then
+    return viol "single-mode-shape" [ofNat tabs.length, ofNat adv.length]
+  -- 3. replay
+  match playAdv (List.range raws.length) tabs adv with
+  | none => return viol "dangling-reference" []
+  | some devPlay =>
+    let srcPlay := src.play
+    let mut byId : Array (Option SrcWf) := #[]
+    for w in wfs do
+      if byId.size ≤ w.id then byId := byId ++ Array.replicate (w.id + 1 - byId.size) none
+      byId := byId.set! w.id (some w)
+    let mut srcWfs : List SrcWf := []
+    for i in srcPlay.reverse do
+      match byId[i]? with
+      | some (some w) => srcWfs := w :: srcWfs
+      | _ => return Sexp.err "unknown-source-waveform"
+    let devSegs := devPlay.map (fun i => segs[i]!)
+    let expA := concatMap srcWfs (·.a)
+    let devA := concatMap devSegs (·.a.toArray)
+    if expA.size != devA.size then
+      return viol "total-length" [ofNat devA.size, ofNat expA.size]
+    match firstBadCode expA devA with
+    | some i => return viol "channel-a" [ofNat i, ofNat devA[i]!, ofNat expA[i]!.1, ofNat expA[i]!.2]
+    | none => pure ()
+    let expB := concatMap srcWfs (·.b)
+    let devB := concatMap devSegs (·.b.toArray)
+    match firstBadCode expB devB with
+    | some i => return viol "channel-b" [ofNat i, ofNat (devB[i]?.getD 0), ofNat (expB[i]?.getD (0,0)).1, ofNat (expB[i]?.getD (0,0)).2]
+    | none => pure ()
+    match firstBadBool (decimate (concatMap srcWfs (·.mA))) (concatMap devSegs (·.mA.toArray)) with
+    | some i => return viol "marker-a" [ofNat i]
+    | none => pure ()
+    match firstBadBool (decimate (concatMap srcWfs (·.mB))) (concatMap devSegs (·.mB.toArray)) with
+    | some i => return viol "marker-b" [ofNat i]
+    | none => pure ()
+    return .list [.atom "ok", ofNat devA.size, ofNat devPlay.length]
+
+def natList? (xs : List Sexp) : Option (List Nat) := xs.mapM nat?
+
 def handle : List Sexp → Sexp
-  | _ => Sexp.err "c16-not-implemented"
+  | [.atom "model", m, l, .list [.atom "src", src], st] =>
+    match mode? m, limits? l, loop? src, staged? st with
+    | some m, some L, some src, some st => modelCompile m L src st
+    | _, _, _, _ => Sexp.err "bad-args"
+  | [.atom "judge", m, l, .list [.atom "src", src], c, .list (.atom "wfs" :: wfs), .list (.atom "segs" :: segs),
+      .list (.atom "seqtabs" :: tabs), .list (.atom "adv" :: adv)] =>
+    match mode? m, limits? l, loop? src, cfg? c with
+    | some (some m), some L, some src, some c =>
+      match wfs.mapM (srcWf? c), segs.mapM natRuns?, tabs.mapM (listOf? tentry3?), adv.mapM tentry3? with
+      | some wfs, some segs, some tabs, some adv => judge m L src wfs segs tabs adv
+      | _, _, _, _ => Sexp.err "bad-args"
+    | _, _, _, _ => Sexp.err "bad-args"
+  | [.atom "inrange", c, .list (.atom "wfs" :: wfs)] =>
+    match cfg? c with
+    | some c =>
+      match wfs.mapM (srcWf? c) with
+      | some wfs =>
+        if !(wfs.all (fun w => w.a.all (fun x => x.1 ≤ x.2) && w.b.all (fun x => x.1 ≤ x.2))) then
+          .list [.atom "ok", .atom "false"]
+        else if wfs.any (·.band) then .list [.atom "ok", .atom "boundary"]
+        else .list [.atom "ok", .atom "true"]
+      | none => Sexp.err "bad-args"
+    | none => Sexp.err "bad-args"
+  | [.atom "play", src] =>
+    match loop? src with
+    | some l => .list (.atom "ok" :: l.play.map ofNat)
+    | none => Sexp.err "bad-args"
+  | [.atom "pack", .list (.atom "a" :: a), .list (.atom "b" :: b), ma, mb] =>
+    match natList? a, natList? b, bits? ma, bits? mb with
+    | some a, some b, some ma, some mb =>
+      match pack ⟨a, b, ma, mb⟩ with
+      | .ok raw => .list (.atom "ok" :: raw.map ofNat)
+      | .error e => errS e
+    | _, _, _, _ => Sexp.err "bad-args"
+  | [.atom "unpack", raw] =>
+    match natRuns? raw with
+    | some raw =>
+      match unpack raw with
+      | some s => .list [.atom "ok", .list (s.a.map ofNat), .list (s.b.map ofNat), bitsS s.mA, bitsS s.mB]
+      | none => errS .assertion
+    | none => Sexp.err "bad-args"
+  | [.atom "code14", amp, off, vs] =>
+    match rat? amp, rat? off, dyadic? vs with
+    | some amp, some off, some vs =>
+      match codes amp off vs with
+      | .ok cs => .list [.atom "ok", .list (cs.map ofNat),
+          .list (vs.map (fun v => let a := acceptVolt amp off v; ofBool (a.1 != a.2)))]
+      | .error e => .list [.atom "error", .atom e.name, ofBool (vs.all (fun v => (acceptVolt amp off v).1 ≤ (acceptVolt amp off v).2))]
+    | _, _, _ => Sexp.err "bad-args"
+  | _ => Sexp.err "c16-unknown-request"
 
 end QP.C16
